@@ -39,7 +39,7 @@ PROGRAM_THEOREMS = {
 }
 
 
-_NF = ["Bb.Nf.nf_sound", "Bb.Nf.bodiesEquiv_sound"]
+_NF = ["Bb.Nf.nf_sound", "Bb.Nf.bodiesEquiv_sound", "Bb.Nf.witness_refutes"]
 _TVG = ["Bb.TV.getter_validated", "Bb.TV.getter_validated_plain", "Bb.TV.accepted_getter_validated"]
 _TVS = ["Bb.TV.setter_validated", "Bb.TV.accepted_setter_validated"]
 _TVH = ["Bb.TV.history_validated_exists", "Bb.TV.history_validated_unique", "Bb.TV.history_validated_bits"]
